@@ -78,6 +78,8 @@ def preds_of(case):
                     P.add("prog.body_const")
                 if l["r"] == c["h"]["r"]:
                     P.add("prog.self_recursive")
+        if sum(1 for l in lits(c) if l["k"] == "pos" and l["r"] == c["h"]["r"]) >= 2:
+            P.add("prog.nonlinear_recursion")
         for l in lits(c):
             if l["k"] == "cmp" and l["op"] == "=":
                 P.add("prog.cmp_eq")
